@@ -5,6 +5,7 @@ CONSTANTS
   ExtraM = {"zz"}
   ExtraP = {"cmd"}
   CmdP = {"cmd"}
+  DescCmds = {"cmd", "stop", "_stop"}
   Wires = {"w1", "wbad"}
   ValidW = {"w1"}
   ENames = {"ProtocolError", "NoSuchModule", "NoSuchParameter", "NoSuchCommand", "CommandFailed", "CommandRunning", "ReadOnly", "RangeError", "WrongType", "BadJSON", "CommunicationFailed", "TimeoutError", "HardwareError", "IsBusy", "IsError", "Disabled", "Impossible", "ReadFailed", "OutOfRange", "NotImplemented", "InternalError", "Bogus", "BadValue"}
